@@ -125,6 +125,10 @@ def menu(ctx):
     for t in ("and", "buf", "input"):
         out.append(((repr(("add", "a", t, None, None, True)), "deep-uid"), (("add", "a", t, None, None, True), "deep-uid")))
     out.append(((repr(("add", "a", "and", ["a_3"], ["a_10"], True)), "deep-uid"), (("add", "a", "and", ["a_3"], ["a_10"], True), "deep-uid")))
+    # a child with a nested box r(p;q) instantiated as `bb` into a parent that already has plain nodes called bb_r.p / bb_r.q
+    for conn in (None, {"i": "a", "o": "b"}):
+        op_ = ("add_subcircuit", "nested", "bb", conn)
+        out.append(((repr(op_), "nested-pin-names"), (op_, "nested-pin-names")))
     for op in ops:
         for reg in (False, True):
             out.append(((repr(op), reg), (op, reg)))
@@ -172,16 +176,18 @@ def run(ctx):
         U = U_std
         if reg == "deep-uid":
             U = ["a"] + [f"a_{i}" for i in range(11)]
+        if reg == "nested-pin-names":
+            U = ["a", "b", "bb_r.p", "bb_r.q"]
         vars_ = sg.make_vars(U)
         A = e2.acc_pre(vars_)
         pre = sg.base_pre(vars_)
         pre.append(specs.legal_wiring(U, A.present, A.typ, A.edge))
-        bbs = {"bb": (["i"], ["o"])} if (reg and reg != "deep-uid") else {}
+        bbs = {"bb": (["i"], ["o"])} if (reg and reg not in ("deep-uid", "nested-pin-names")) else {}
         if reg == "deep-uid":
             pre += [vars_[0][n] for n in U]  # every name is taken
         if reg == "bb_r":
             bbs["bb_r"] = ([], [])  # a pin-less instance whose name clashes with <name>_<nested instance>
-        if reg and reg != "deep-uid":
+        if reg and reg not in ("deep-uid", "nested-pin-names"):
             pre.append(specs.pins_ok(bbs, A.present, A.typ))
         f = make_op(op, kids)
         removed_by_caller = set()
@@ -208,7 +214,7 @@ def run(ctx):
                 res.append(("uid-fresh", z3.And(keep), "api:add-uid-overwrites", f"add(uid=True) returned {out.ret!r}: an existing node was overwritten / renamed / rewired"))
             registry = {k: (sorted(b.inputs()), sorted(b.outputs())) for k, b in c.blackboxes.items()}
             if out.kind == "raise":
-                pre_reg = {"bb": (["i"], ["o"])} if (reg and reg != "deep-uid") else {}
+                pre_reg = {"bb": (["i"], ["o"])} if (reg and reg not in ("deep-uid", "nested-pin-names")) else {}
                 if reg == "bb_r":
                     pre_reg["bb_r"] = ([], [])
                 res.append(("rejected-keeps-registry", z3.BoolVal(registry == {k_: (sorted(v_[0]), sorted(v_[1])) for k_, v_ in pre_reg.items()}), f"api:{op[0]}:rejected-call-changed-registry",
